@@ -30,6 +30,9 @@ class Inconclusive(Exception):
     pass
 
 
+TLA_CP = "/opt/veriftools/tla/tla2tools.jar:/opt/veriftools/tla/CommunityModules-deps.jar"
+
+
 class TLCResult:
     def __init__(self, rc, out, wall):
         self.rc, self.out, self.wall = rc, out, wall
@@ -109,7 +112,10 @@ class Context:
         meta = os.path.join(self.work, "meta.%d" % len(self.tlc_cmds))
         if workers is None:
             workers = min(NCPU, 16)
-        cmd = ["tlc", "-noGenerateSpecTE", "-maxSetSize", "50000000", "-metadir", meta, "-workers", str(workers), "-config", cfg]
+        # the `tlc` wrapper on PATH is `java -XX:+UseParallelGC -cp <jars> tlc2.TLC`; it is spelled out here because the stack size of the
+        # JVM's main thread (which computes the initial states) can only be given on the command line, not through JAVA_TOOL_OPTIONS
+        cmd = ["java", "-Xss512m", "-XX:+UseParallelGC", "-cp", TLA_CP, "tlc2.TLC",
+               "-noGenerateSpecTE", "-maxSetSize", "50000000", "-metadir", meta, "-workers", str(workers), "-config", cfg]
         if simulate:
             cmd += ["-simulate", simulate]
         if coverage:
@@ -131,7 +137,7 @@ class Context:
         finally:
             shutil.rmtree(meta, ignore_errors=True)
         r = TLCResult(p.returncode, p.stdout, time.time() - t)
-        self.tlc_cmds.append(" ".join(cmd[:1] + cmd[3:]))
+        self.tlc_cmds.append("tlc " + " ".join(cmd[6:]))
         with open(os.path.join(self.work, "tlc.%d.%s.log" % (len(self.tlc_cmds), label or cfg)), "w") as f:
             f.write(p.stdout)
         if count:
